@@ -126,6 +126,7 @@ class RemoteWorker(Worker, metaclass=RemoteWorkerMeta):
                 pass
 
         self._startup_sync = threading.Event()
+        self._startup_error = None # set by the frontend thread if the handshake with the server fails
         self._remote_side = False # tells us whether the class exists on the remote end
         self._is_backend = False # True if a class is accessed from the _run_backend
         self._from_remote_parent = False # used only to detect payloads passed to __setstate__ which were received from the remote part
@@ -388,6 +389,11 @@ class RemoteWorker(Worker, metaclass=RemoteWorkerMeta):
         self._dead = False
         logger.debug('Waiting for the frontend thread to notify that everything is up and running...')
         self._startup_sync.wait()
+        if self._startup_error is not None:
+            # the handshake failed (server unreachable or gone, unknown context, connection dropped...)
+            self._child.join()
+            self._dead = True
+            raise ConnectionClosedError('Could not create a remote worker') from self._startup_error
         logger.details('Child created successfully, continuing with the main thread')
 
     # Parent-side, helper thread managing network communication and fetching results from the child
@@ -398,20 +404,34 @@ class RemoteWorker(Worker, metaclass=RemoteWorkerMeta):
         if self._set_names:
             setthreadtitle(f'{self.name} (remote front)', self)
 
-        logger.debug('Sending self to the server to initialize backend...')
-        send_msg(self._socket, (self._context, True), comment='data: header')
-        send_msg(self._socket, self, comment='data: initial remote worker') # this will spawn a backend at the remote side, via __getstate__(remote=True) and __setstate__
+        try:
+            logger.debug('Sending self to the server to initialize backend...')
+            send_msg(self._socket, (self._context, True), comment='data: header')
+            send_msg(self._socket, self, comment='data: initial remote worker') # this will spawn a backend at the remote side, via __getstate__(remote=True) and __setstate__
 
-        logger.debug('Waiting for control socket address from the child...')
-        control_addr = recv_msg(self._socket, comment='control socket addr')
+            logger.debug('Waiting for control socket address from the child...')
+            control_addr = recv_msg(self._socket, comment='control socket addr')
 
-        logger.debug('Control socket address from the child: {}, connecting...', control_addr)
-        self._ctrl_sock = socket.socket(socket.AF_INET, socket.SOCK_STREAM)
-        set_keepalive(self._ctrl_sock, True)
-        self._ctrl_sock.connect(control_addr)
-        logger.debug('Control sockets connected: {} <==> {}', self._ctrl_sock.getsockname(), control_addr)
+            logger.debug('Control socket address from the child: {}, connecting...', control_addr)
+            self._ctrl_sock = socket.socket(socket.AF_INET, socket.SOCK_STREAM)
+            set_keepalive(self._ctrl_sock, True)
+            self._ctrl_sock.connect(control_addr)
+            logger.debug('Control sockets connected: {} <==> {}', self._ctrl_sock.getsockname(), control_addr)
 
-        self._host, self._pid, self._tid, self._ident = recv_msg(self._ctrl_sock, comment='ctrl: runtime info')
+            self._host, self._pid, self._tid, self._ident = recv_msg(self._ctrl_sock, comment='ctrl: runtime info')
+        except BaseException as e:
+            # never leave the constructor waiting: hand the failure over to it
+            logger.debug('Handshake with the server failed', exc_info=1)
+            self._startup_error = e
+            for sock in (self._socket, getattr(self, '_ctrl_sock', None)):
+                try:
+                    if sock is not None:
+                        sock.close()
+                except OSError:
+                    pass
+            self._startup_sync.set()
+            return
+
         logger.debug('Received info package from the backend, signalling the main thread that everything is fine')
         self._startup_sync.set()
         self._fetch_results()
@@ -498,7 +518,15 @@ class RemoteWorker(Worker, metaclass=RemoteWorkerMeta):
 
             incoming = self._ctrl_sock
             logger.debug('Waiting for a connect to the control socket from the parent')
-            self._ctrl_sock, ctrl_peer = incoming.accept()
+            # the server serves one client at a time: a parent which vanished after asking for the address
+            # must not block it for ever
+            incoming.settimeout(10)
+            try:
+                self._ctrl_sock, ctrl_peer = incoming.accept()
+            except OSError as e:
+                incoming.close()
+                raise ConnectionClosedError() from e
+            self._ctrl_sock.settimeout(None)
             set_keepalive(self._ctrl_sock, True)
             logger.details('Control sockets connected: {} <==> {}', self._ctrl_sock.getsockname(), ctrl_peer)
             logger.debug('Closing listening socket')
